@@ -47,6 +47,13 @@ def cells(tier, seed):
             out.append({"kind": "fixed", "pattern": list(bits), "ctx": ctx})
             if tier == "thorough":
                 out.append({"kind": "matern", "pattern": list(bits), "ctx": ctx})
+    if tier == "thorough":
+        # five training points (all 31 patterns), and a batch of three elements with every triple of patterns over two points
+        for bits in itertools.product([0, 1], repeat=5):
+            if sum(bits) == 5:
+                continue
+            for ctx in ("default", "fpv", "cg"):
+                out.append({"kind": "single", "pattern": list(bits), "ctx": ctx})
     for bits in itertools.product([0, 1], repeat=6):
         if sum(bits) == 6:
             continue
@@ -122,9 +129,9 @@ def run_cell(cell, seed):
     feats = {"kind": kind, "ctx": cell["ctx"], "n_nan": int(torch.tensor(cell["pattern"]).sum())}
     if kind == "elp":
         return run_elp(cell, seed, feats)
-    g = util.gen(seed, "c16|" + kind)
+    g = util.gen(seed, "c16|" + kind + ("" if len(cell["pattern"]) in (4, 6, 2) or kind != "single" else f"|{len(cell['pattern'])}"))
     if kind in ("single", "fixed", "matern"):
-        n, d, m = 4, 2, 3
+        n, d, m = len(cell["pattern"]), 2, 3
         X, y0, Xs = util.rand(g, n, d), util.randn(g, n), util.rand(g, m, d)
         nanmask = torch.tensor(cell["pattern"], dtype=torch.bool)
     elif kind == "multitask":
